@@ -649,6 +649,12 @@ def reshape_conditionals(fn, r, stats, key):
             ast.fix_missing_locations(ast.copy_location(loop, r_))
             fin = ast.copy_location(ast.Return(value=ast.copy_location(ast.Constant(value=isall), r_)), r_)
             if surplus(r_) and wanted(loop):
+                k_ = 0
+                for top in (loop, fin):             # keep source order recoverable from positions
+                    for n_ in ast.walk(top):
+                        if hasattr(n_, 'lineno'):
+                            k_ += 1
+                            n_.col_offset = getattr(r_, 'col_offset', 0) + k_ / 10000.0
                 swap([r_], [loop, inner, fin])
                 b[-1:] = [loop, fin]
                 changed[0] += 1
@@ -1084,6 +1090,19 @@ def normalise_repo(trees, use_reference=True, stats=None):
                         reshape_conditionals(fn, r, stats, key)
                     fn.body = flatten_block(fn.body)
                     fn._drift = not _settle(fn, r, stats, key)
+    # rewritten functions: positions must again increase in execution (pre-)order - rules order statements by position
+    if stats:
+        touched = {k for k, _ in stats}
+        for mod, tree in trees.items():
+            for key, fn in functions_of(tree, mod):
+                if key in touched:
+                    base = getattr(fn, 'lineno', 0)
+                    for k, n in enumerate(_preorder(fn)):
+                        if hasattr(n, 'lineno') and n is not fn:
+                            if not hasattr(n, '_src'):
+                                n._line = n.lineno
+                            n.lineno = base + (k + 1) / 100000.0
+                            n.col_offset = 0
     for tree in trees.values():
         link_siblings(tree)
 
